@@ -33,6 +33,7 @@ import (
 	"encoding/json"
 	"fmt"
 	"os"
+	"runtime"
 	"runtime/debug"
 	"sort"
 	"strconv"
@@ -71,7 +72,8 @@ type alphabet struct {
 // "reorg": the operations that build competing branches, deeper; "orphan": out-of-order delivery
 // through hold / child / deliver; "inputs": transfers whose inputs name an outpoint under a
 // different Sequence, twice in one transaction, or after an unspent input of the same
-// transaction).
+// transaction, and blocks in which two transfers spend different outputs of one previous
+// transaction (0+7), followed by re-spends).
 func familiesFor(tier string) (fams []alphabet, budgetS int) {
 	if tier == "thorough" {
 		return []alphabet{
@@ -83,7 +85,7 @@ func familiesFor(tier string) (fams []alphabet, budgetS int) {
 				Mine:  []string{"-", "pool", "1", "0+1"},
 				ForkK: []int{1}, Fork: []string{"-", "1"}, Ext: []string{"-", "1"}, Depth: 7},
 			{Name: "inputs", Subs: []int{0, 3, 8, 9, 10, 11},
-				Mine:  []string{"-", "pool", "0", "1", "3", "8", "9", "10", "11", "0+8", "1+8", "1+10", "3+11", "8+10"},
+				Mine:  []string{"-", "pool", "0", "1", "3", "8", "9", "10", "11", "0+8", "1+8", "1+10", "3+11", "8+10", "0+7", "7+0"},
 				ForkK: []int{1}, Fork: []string{"-", "8"}, Ext: []string{"-"}, Depth: 4},
 		}, 1700
 	}
@@ -98,7 +100,7 @@ func familiesFor(tier string) (fams []alphabet, budgetS int) {
 			Mine: []string{"-", "pool", "3+4"},
 			Hold: []string{"-", "0"}, Child: []string{"-", "5"}, Depth: 4},
 		{Name: "inputs", Subs: []int{8, 10, 11},
-			Mine: []string{"1", "3", "8", "9", "10", "11", "0+8", "1+10"}, Depth: 3},
+			Mine: []string{"1", "3", "8", "9", "10", "11", "0+8", "1+10", "0+7", "7+0"}, Depth: 3},
 	}, 85
 }
 
@@ -648,6 +650,7 @@ type execResult struct {
 }
 
 func run(al *alphabet, hist []string, wantOps bool) (res execResult) {
+	chainkit.Announce(strings.Join(hist, " "))
 	w := newWorld(al)
 	defer w.close()
 	defer func() {
@@ -722,7 +725,13 @@ func serve(raw []byte) interface{} {
 	base := run(&rq.Al, rq.Hist, true)
 	out.Execs++
 	if base.Fail != nil || base.Digest != rq.Digest {
-		out.Err = fmt.Sprintf("replay of clean history %v diverged: fail=%v digest %s vs recorded %s", rq.Hist, base.Fail, base.Digest, rq.Digest)
+		// The same history gave a different outcome on a fresh node than when the state was
+		// first reached. The harness is deterministic (histories are replayed hundreds of
+		// thousands of times on the unchanged tree without a single divergence), so this is
+		// behaviour of the code under test that depends on something other than its inputs:
+		// reported as a violation with the history, not as an engine error.
+		what := fmt.Sprintf("replaying %v on a fresh node gave digest %s (failure: %v) but %s when the state was first reached", rq.Hist, base.Digest, base.Fail, rq.Digest)
+		out.Trans = append(out.Trans, transOut{Op: "", Fail: &fail{Sig: "C06|determinism|same-history-different-state", What: what}})
 		return out
 	}
 	for _, o := range base.Ops {
@@ -732,18 +741,22 @@ func serve(raw []byte) interface{} {
 		t := transOut{Op: o, Digest: r.Digest, C: r.C}
 		if r.Fail != nil {
 			if r.FailAt != len(h)-1 {
-				out.Err = fmt.Sprintf("history %v failed at clean prefix op %d: %s", h, r.FailAt, r.Fail.Sig)
-				return out
+				t.Fail = &fail{Sig: r.Fail.Sig + "|unstable", What: fmt.Sprintf("history %v failed at op %d, inside a prefix that was clean before: %s", h, r.FailAt, r.Fail.What)}
+				out.Trans = append(out.Trans, t)
+				continue
 			}
+			stable := true
 			for k := 0; k < 2; k++ { // confirm twice on fresh nodes
 				r2 := run(&rq.Al, h, false)
 				out.Execs++
 				if r2.Fail == nil || r2.Fail.Sig != r.Fail.Sig {
-					out.Err = fmt.Sprintf("failing history %v does not reproduce: %s then %v", h, r.Fail.Sig, r2.Fail)
-					return out
+					stable = false
 				}
 			}
 			t.Fail = r.Fail
+			if !stable {
+				t.Fail = &fail{Sig: r.Fail.Sig + "|unstable", What: "does not reproduce on every fresh node: " + r.Fail.What}
+			}
 		}
 		out.Trans = append(out.Trans, t)
 	}
@@ -824,16 +837,32 @@ func (e *explorer) level(r *evid.Run, pool *chainkit.Pool, deadline time.Time, t
 	for i, st := range frontier {
 		reqs[i] = request{Al: al, Hist: st.Hist, Digest: st.Digest}
 	}
-	outs, err := pool.Map(reqs, deadline)
+	outs, deaths, err := pool.Map(reqs, deadline)
 	if err != nil {
 		evid.Fatalf("C06: %v", err)
+	}
+	died := map[int]bool{}
+	for _, d := range deaths {
+		died[d.Index] = true
+		hist := frontier[d.Index].Hist
+		if d.Announced != "" {
+			hist = strings.Fields(d.Announced)
+		}
+		if f := chainkit.DeathFail(d); f != nil {
+			r.Violate("C06|"+f.Sig, f.What, map[string]interface{}{"family": al.Name, "history": hist})
+		} else {
+			fr.Exhaustive = false
+			fr.Cap = fmt.Sprintf("worker killed twice (resource limit) while expanding %v: %s", hist, d.ExitErr)
+		}
 	}
 	var next []state
 	cut := false
 	byFrom := map[int][]transOut{}
 	for i, raw := range outs {
 		if raw == nil {
-			cut = true
+			if !died[i] {
+				cut = true
+			}
 			continue
 		}
 		var wo workerOut
@@ -894,6 +923,21 @@ func (e *explorer) result() famResult {
 
 func main() {
 	if chainkit.Serve(serve) {
+		return
+	}
+	if len(os.Args) > 2 && os.Args[1] == "--leak" {
+		n, _ := strconv.Atoi(os.Args[2])
+		fams, _ := familiesFor("quick")
+		for i := 0; i < n; i++ {
+			run(&fams[1], []string{"fork:1:-", "ext:-", "fork:1:1", "ext:-"}, false)
+			if i%200 == 199 {
+				var ms runtime.MemStats
+				runtime.ReadMemStats(&ms)
+				fds, _ := os.ReadDir("/proc/self/fd")
+				fmt.Printf("%d nodes: heapAlloc %d MB heapSys %d MB goroutines %d fds %d\n", i+1, ms.HeapAlloc>>20, ms.HeapSys>>20, runtime.NumGoroutine(), len(fds))
+			}
+		}
+		chainkit.Cleanup()
 		return
 	}
 	if len(os.Args) > 1 && os.Args[1] == "--cost" {
